@@ -204,9 +204,12 @@ func (g *mdGen) inline(d int) string {
 		g.inLink++
 		txt := g.inline(d + 1)
 		g.inLink--
-		return "[" + txt + "](http://example.com/p?a=1&b=2" + t + ")"
+		// destinations of every spelling: a bare fragment, an empty fragment after a path, a scheme in capitals, a query without value - a
+		// destination is an address written by the author, not something to normalise
+		dest := []string{"http://example.com/p?a=1&b=2", "http://example.com/p?a=1&b=2", "#", "page.html#", "HTTP://example.com/", "#top", "/rel/path?x", "mailto:A@B.example", "Https://Example.COM/a#"}[g.r.Intn(9)]
+		return "[" + txt + "](" + dest + t + ")"
 	case x == 8:
-		return "![alt " + g.words(1) + "](img.png \"t\")"
+		return "![alt " + g.words(1) + "](" + []string{"img.png", "img.png", "logo.png#", "HTTP://example.com/i.png"}[g.r.Intn(4)] + " \"t\")"
 	case x == 9:
 		return "~~" + g.inline(d+1) + "~~"
 	case x == 10:
